@@ -18,6 +18,7 @@ RULE = ("circuits: every sequence of <=L operations over {X(q), RY(a_q)(q) with 
         "wide registers: X on every single qubit (and two patterns, and two-outcome states) on 9 qubits in both regimes. "
         "non-trivial = state not symmetric under qubit reversal; distinct = canonical circuit")
 RULE += ' Also: a controlled RX(theta) on every ordered index tuple simulated symbolically and bound afterwards; sample counts from 999 to 100000 under scripted and real generators.'
+RULE += ' Round 6: product states on 5-12 qubits: unevenly spaced qubit triples / quadruples, sums with different coefficients on qubits >= 8 and below, exact distribution of 11-12 qubits.'
 RULE += ' Round 5: operator objects re-used across views with a qubit-reversed expectation in between; unsimplified sums repeating a string; CNOTs between far-apart qubits on 7/9-qubit registers.'
 ASSUMPTIONS = ["gate matrices taken from the library (C02), embedding from the /verif reference (C01)", "np.random.default_rng(seed).choice is the only randomness in sampling (trapped otherwise)",
                "scripted picks are restricted to entries with p > 0 (numpy never returns a zero-probability entry)"]
@@ -255,6 +256,78 @@ def wide_case(case):
     return {"ok": True, "nt": bits != bits[::-1], "ops": 4 + n_exec, "out": "n%d-k%s" % (n, "few" if k <= 2 ** n else "many"), "extra": {"sampling_executions": n_exec}}
 
 
+def product_wide_case(case):
+    """{'n': n}: a PRODUCT state with a different polarisation on every qubit (RY(alpha_q) on qubit q) on a register of 5-12 qubits: exact <O> for Z operators that couple low and
+    high qubits with DIFFERENT coefficients, on every multi-qubit subset shape (unevenly spaced triples and quadruples included); the exact distribution; and expectation values /
+    frequencies / parity tallies measured on a fixed asymmetric shot list - all name the same qubits"""
+    from orquestra.quantum import circuits as C
+    from orquestra.quantum.measurements import Measurements, get_expectation_value_from_frequencies, get_parities_from_measurements
+    from orquestra.quantum.operators import PauliTerm, PauliSum
+    from orquestra.quantum.runners.symbolic_simulator import SymbolicSimulator
+    n = case["n"]
+    alpha = [0.35 + 0.23 * q for q in range(n)]
+    zexp = [float(np.cos(a)) for a in alpha]          # <Z_q> of RY(alpha)|0>
+    c = C.Circuit([C.RY(alpha[q])(q) for q in range(n)], n_qubits=n)
+    sim = SymbolicSimulator()
+    k = 0
+    hi = n - 1
+    subsets = [s_ for r_ in (1, 2, 3, 4) for s_ in itertools.combinations(range(n), r_)] if n <= 7 else \
+        [(0,), (hi,), (8,), (1, 8), (8, 1), (3, 8), (0, hi), (1, 2, hi), (0, 1, 4), (0, 3, 4), (0, 1, 3, 6), (2, 8, hi) if hi > 8 else (2, 5, 8), (0, 4, 8), (1, 7, 8), (0, 1, 8, hi - 1)]
+    light = bool(case.get("light"))      # 11+ qubits: one exact evaluation costs seconds - a handful of operators, the full distribution, the measured part
+    for S in (subsets if not light else [(0,), (hi,), (1, 8), (0, 1, 4)]):
+        S = tuple(dict.fromkeys(S))
+        got = sim.get_exact_expectation_values(c, z_op(S))
+        exp = float(np.prod([zexp[q] for q in S]))
+        k += 1
+        if abs(got - exp) > 1e-9:
+            return {"ok": False, "msg": "exact <Z_%s> of a product state on %d qubits" % (list(S), n), "expected": exp, "observed": float(got), "sig": "product:exact", "ops": k}
+    # sums whose terms sit on different qubits with different coefficients (a relabelling of the operator's qubits would exchange them)
+    pairs = [(a, b) for a in range(n) for b in range(n) if a < b] if n <= 7 else [(1, 8), (3, 8), (0, hi), (8, hi) if hi > 8 else (7, 8), (2, hi), (1, 2), (7, 8), (0, 8), (5, hi)]
+    for a, b in (pairs if not light else [(1, 8), (8, hi)]):
+        for op, exp in ((PauliSum([PauliTerm({a: "Z"}, 2.0), PauliTerm({b: "Z"}, 1.0)]), 2 * zexp[a] + zexp[b]),
+                        (PauliSum([PauliTerm({b: "Z"}, 1.0), PauliTerm({a: "Z"}, 2.0)]), 2 * zexp[a] + zexp[b]),
+                        (PauliSum([PauliTerm({a: "Z", b: "Z"}, 1.0), PauliTerm({b: "Z"}, 0.5)]), zexp[a] * zexp[b] + 0.5 * zexp[b]),
+                        (PauliSum([PauliTerm({a: "X"}, 1.5), PauliTerm({b: "Z"}, -1.0)]), 1.5 * float(np.sin(alpha[a])) - zexp[b])):
+            got = sim.get_exact_expectation_values(c, op)
+            k += 1
+            if abs(got - exp) > 1e-9:
+                return {"ok": False, "msg": "exact <%s> of a product state on %d qubits" % (op, n), "expected": float(exp), "observed": float(got), "sig": "product:exact-sum", "ops": k}
+    # exact distribution: every key present, probability = product of the per-qubit probabilities of its bits
+    dist = sim.get_measurement_outcome_distribution(c, None).distribution_dict
+    p1 = [float(np.sin(a / 2) ** 2) for a in alpha]
+    if len(dist) != 2 ** n or any(len(key) != n for key in dist):
+        return {"ok": False, "msg": "exact distribution on %d qubits has %d keys (lengths %s)" % (n, len(dist), sorted({len(key) for key in dist})), "sig": "product:distribution-keys", "ops": k}
+    probe = [tuple(1 if q in on else 0 for q in range(n)) for on in ((), (0,), (hi,), (0, hi), (1, 2), (hi - 1,), tuple(range(0, n, 2)), tuple(range(n)))]
+    for key in probe:
+        exp = float(np.prod([p1[q] if key[q] else 1 - p1[q] for q in range(n)]))
+        k += 1
+        if abs(dist.get(key, -1.0) - exp) > 1e-10:
+            return {"ok": False, "msg": "exact distribution on %d qubits: outcome %s" % (n, key), "expected": exp, "observed": float(dist.get(key, -1.0)), "sig": "product:distribution", "ops": k}
+    tot = float(sum(pr * (-1) ** (key[0] + key[hi]) for key, pr in dist.items()))
+    if abs(tot - zexp[0] * zexp[hi]) > 1e-9:
+        return {"ok": False, "msg": "average of Z_0 Z_%d under the exact distribution differs from its exact expectation" % hi, "expected": zexp[0] * zexp[hi], "observed": tot, "sig": "product:distribution-vs-exact", "ops": k}
+    # measured: a fixed asymmetric shot list (multiplicities 1..), every subset shape
+    shots = []
+    for j in range(23):
+        b = tuple(((j * (q + 3) + (q * q) // 2 + (j >> (q % 3))) % 3 == 0) * 1 for q in range(n))
+        shots += [b] * (1 + j % 4)
+    m = Measurements(list(shots))
+    counts = m.get_counts()
+    msub = subsets if n <= 7 else subsets + [(0, 2, 3), (0, 1, 4, 5), (2, 3, 6), (1, 4, 5, 8), (0, 2, 6), (0, 6, 8)]
+    for S in msub:
+        S = tuple(dict.fromkeys(S))
+        exp = float(rs.mean([F(rs.eig(sh, S)) for sh in shots]))
+        got = m.get_expectation_values(z_op(S)).values[0]
+        gf = get_expectation_value_from_frequencies(list(S), dict(counts))
+        pr = get_parities_from_measurements(list(shots), PauliSum([PauliTerm({q: "Z" for q in S}, 1.0)]))
+        ev = sum(1 for sh in shots if rs.eig(sh, S) == 1)
+        k += 3
+        if abs(got - exp) > 1e-9 or abs(gf - exp) > 1e-9 or np.asarray(pr.values).tolist() != [[ev, len(shots) - ev]]:
+            return {"ok": False, "msg": "measured statistics of Z on qubits %s (register of %d): expectation values / frequencies / parity tallies do not use these qubits" % (list(S), n),
+                    "expected": str([exp, exp, [[ev, len(shots) - ev]]]), "observed": str([float(got), float(gf), np.asarray(pr.values).tolist()]), "sig": "product:measured", "ops": k}
+    return {"ok": True, "nt": True, "ops": k, "out": "n%d" % n}
+
+
 def symbolic_case(case):
     """{'n': n, 'q': index tuple of a controlled RX(theta), 'pre': qubits flipped first}: the state vector of a circuit with a free symbol, bound afterwards,
     names the same qubits as the circuit bound first (and as the reference)"""
@@ -324,7 +397,7 @@ def many_case(case):
     return {"ok": True, "nt": len(support) >= 1, "ops": 3 + 2 ** n, "out": "k%d" % k}
 
 
-FUNCS = {"many_samples": many_case, "symbolic": symbolic_case, "views": views_case, "real_rng": real_rng_case, "wide": wide_case}
+FUNCS = {"product_wide": product_wide_case, "many_samples": many_case, "symbolic": symbolic_case, "views": views_case, "real_rng": real_rng_case, "wide": wide_case}
 
 
 def run(run):
@@ -378,4 +451,7 @@ def run(run):
             wide.append({"n": n, "x": [], "ry": ct, "cnot": [[ct, tg], [tg, (ct + 1) % n if (ct + 1) % n != tg else (ct + 2) % n]], "samples": 2})
     secs.append(Section("wide", wide, wide_case, horizon=900, desc="registers of 9 (thorough 8-10) qubits, where a basis index needs more than one byte: basis and two-outcome states, also entangled by CNOTs between far-apart qubits (7 and 9 qubits), "
                         "both sampling regimes (1-2 samples, 2^n+1 samples), every answer script with <= 1 deviation"))
+    secs.append(Section("product_wide", [{"n": n_, "light": n_ >= 11} for n_ in ((5, 6, 7, 9, 10, 11, 12, 13) if thorough else (5, 6, 7, 9, 10, 11))], product_wide_case, horizon=900, chunk=1,
+                        desc="product states with a different polarisation per qubit on 5-11 (thorough 13) qubits: exact <O> for operators coupling low and high qubits with different coefficients, every subset shape of <= 4 "
+                        "qubits (5-7 qubits), exact distribution, measured expectation values / frequencies / parity tallies"))
     run.run_sections(secs)
